@@ -406,13 +406,28 @@ def target_names():
             sess.check("post", [], _z3.BoolVal(refused), 0, label=f"an element {why} is refused with ValueError")
         ns = {}
         O.load("circuit/circuit", ["Circuit.get_element_name"], ns)
-        got = []
-        top = type("Top", (), {"get_element_name": lambda s, element=None, identifiers=None: got.append((element, identifiers)) or "NAME"})()
+        # Circuit.get_element_name: behavioural contract -- the name of an element of the circuit is the name its top-level
+        # connection gives it (label, or per-type identifier from the map that was passed / from generate_element_identifiers(
+        # running=False)); whether the circuit delegates or spells the steps out is its own business.  The circuit's surroundings
+        # are modelled by their contracts: membership and identifiers descend into container elements, get_elements(recursive=True)
+        # does NOT (traversal contract).  `a` is nested inside a container element, `b` (labelled) sits directly in a connection.
+        generated = []
 
-        # the circuit around it, as far as its other methods are specified: get_elements(recursive=True) lists the elements of the
-        # (nested) connections and does NOT descend into the sub-circuits of container elements (traversal contract), while
-        # membership and identifiers do.  `a` is nested inside a container element, `b` sits directly in a connection: both are
-        # part of the circuit and both have a name
+        class Top:
+            def __contains__(self, e):
+                return e in (a, b)
+
+            def generate_element_identifiers(self, running=False):
+                generated.append(running)
+                return {a: 2, b: 1}
+
+            def get_element_name(self, element=None, identifiers=None):
+                return fn(self, element, identifiers=identifiers)      # the real Connection.get_element_name (under contract above)
+
+            def get_elements(self, recursive=True):
+                return [b]
+        top = Top()
+
         class Cir:
             _elements = top
 
@@ -423,20 +438,26 @@ def target_names():
                 return [top]
 
             def generate_element_identifiers(self, running=False):
-                return {a: 2, b: 1}
+                return top.generate_element_identifiers(running=running)
 
             def __contains__(self, e):
-                return e in (a, b)
-        ns.update(Element=El, Connection=type(top), isinstance=isinstance)
-        for who, where in ((a, "nested inside a container element"), (b, "directly in a connection")):
-            for ids in ({a: 3, b: 4}, None):
-                got.clear()
+                return e in top
+        ns.update(Element=El, Connection=Top, Series=Top, isinstance=isinstance)
+        for who, where, want_given, want_omitted in ((a, "nested inside a container element", "R_3", "R_2"), (b, "directly in a connection, labelled", "R_x_1", "R_x_1")):
+            for ids, want in (({a: 3, b: 4}, want_given), (None, want_omitted)):
+                generated.clear()
                 try:
                     r = ns["get_element_name"](Cir(), who, ids)
                 except (ValueError, TypeError, KeyError) as e:
                     r = f"{type(e).__name__}: {e}"
-                sess.check("post", [], _z3.BoolVal(r == "NAME" and got == [(who, ids)]), 0,
-                           label=f"Circuit.get_element_name delegates to the top-level connection with both arguments [element {where}, identifiers {'given' if ids else 'omitted'}]")
+                sess.check("post", [], _z3.BoolVal(r == want and all(g is False for g in generated)), 0,
+                           label=f"Circuit.get_element_name == the name its top-level connection gives [element {where}, identifiers {'given' if ids else 'omitted'}]: {want}")
+        refused = False
+        try:
+            ns["get_element_name"](Cir(), stranger, None)
+        except ValueError:
+            refused = True
+        sess.check("post", [], _z3.BoolVal(refused), 0, label="Circuit.get_element_name refuses an element that is not part of the circuit (ValueError)")
     return ("circuit/base:Element.get_name / Connection.get_element_name / Circuit.get_element_name", "circuit/base", "Connection.get_element_name", run)
 
 
